@@ -428,3 +428,90 @@ example (δq δqd : List ℝ) (hq : δq.length = 10) (hqd : δqd.length = 9) :
   forward_tangent_is_derivative exSysF exQF exQdF δq δqd hq hqd exSysF_ADOK
 
 end Brax.C03
+
+/-!
+# C03 (deepening 2, part 2) — further instances on the generated functions of `Brax/Gen/Math.lean`
+
+For each: (P) the value part of the dual run is the function at ℝ — for every input; (S) the tangent
+part is the derivative, under the side condition the function genuinely needs.
+-/
+namespace Brax.C03
+open Brax
+
+/-- **`Gen.normalize4` / `Gen.normalize3`** (the generated `where`-arithmetic form
+`x / (n + 1e-6·[n == 0])`, `n = sqrt(Σ(xᵢ+z)²)·(1−z)`, `z = [allclose(x, 0)]`): off the `allclose`
+ball the tangent of the dual run is the derivative of the real run -/
+theorem gen_normalize_tangent_is_derivative (q : ℝ → Q4 (Dual ℝ)) (v : ℝ → V3 (Dual ℝ)) (t : ℝ)
+    (hq : SoundQ4 q t) (hv : SoundV3 v t)
+    (hgq : allClose0 [(q t).w.re, (q t).x.re, (q t).y.re, (q t).z.re] = false)
+    (hgv : allClose0 [(v t).x.re, (v t).y.re, (v t).z.re] = false) :
+    DerivQ4 (fun u => Gen.normalize4 (reQ4 (q u))) (duQ4 (Gen.normalize4 (q t))) t
+    ∧ DerivV3 (fun u => Gen.normalize3 (reV3 (v u))) (duV3 (Gen.normalize3 (v t))) t :=
+  ⟨gen_normalize4_deriv hq hgq, gen_normalize3_deriv hv hgv⟩
+
+/-- **`Gen.safeNorm4` / `Gen.safeNorm3`**: value part for every input; sound off the ball -/
+theorem gen_safeNorm_tangent_is_derivative (q : ℝ → Q4 (Dual ℝ)) (v : ℝ → V3 (Dual ℝ)) (t : ℝ)
+    (hq : SoundQ4 q t) (hv : SoundV3 v t)
+    (hgq : allClose0 [(q t).w.re, (q t).x.re, (q t).y.re, (q t).z.re] = false)
+    (hgv : allClose0 [(v t).x.re, (v t).y.re, (v t).z.re] = false) :
+    (∀ p : Q4 (Dual ℝ), (Gen.safeNorm4 p).re = Gen.safeNorm4 (reQ4 p))
+    ∧ (∀ p : V3 (Dual ℝ), (Gen.safeNorm3 p).re = Gen.safeNorm3 (reV3 p))
+    ∧ Sound (fun u => Gen.safeNorm4 (q u)) t ∧ Sound (fun u => Gen.safeNorm3 (v u)) t :=
+  ⟨re_gen_safeNorm4, re_gen_safeNorm3, Sound.gen_safeNorm4 hq hgq, Sound.gen_safeNorm3 hv hgv⟩
+
+/-- (P) for the generated `normalize`, every input (both branches of both `where`s) -/
+theorem gen_normalize_value_is_real (p : Q4 (Dual ℝ)) (w : V3 (Dual ℝ)) :
+    reQ4 (Gen.normalize4 p) = Gen.normalize4 (reQ4 p) ∧ reV3 (Gen.normalize3 w) = Gen.normalize3 (reV3 w) :=
+  ⟨reQ4_gen_normalize4 p, reV3_gen_normalize3 w⟩
+
+/-- **`Gen.quatTo3x3`**: sound wherever the quaternion is non-zero (the only division is by `|q|²`) -/
+theorem gen_quatTo3x3_tangent_is_derivative (q : ℝ → Q4 (Dual ℝ)) (t : ℝ) (hq : SoundQ4 q t)
+    (hn : (q t).w.re * (q t).w.re + (q t).x.re * (q t).x.re + (q t).y.re * (q t).y.re
+      + (q t).z.re * (q t).z.re ≠ 0) :
+    DerivM3 (fun u => Gen.quatTo3x3 (reQ4 (q u))) (duM3 (Gen.quatTo3x3 (q t))) t :=
+  gen_quatTo3x3_deriv hq hn
+
+/-- **`Gen.signedAngle`** `= atan2((p × c)·axis, p·c)`: sound off the branch cut of `atan2` -/
+theorem gen_signedAngle_tangent_is_derivative (ax p c : ℝ → V3 (Dual ℝ)) (t : ℝ)
+    (hax : SoundV3 ax t) (hp : SoundV3 p t) (hc : SoundV3 c t)
+    (h : 0 < V3.dot (reV3 (p t)) (reV3 (c t))
+      ∨ V3.dot (V3.cross (reV3 (p t)) (reV3 (c t))) (reV3 (ax t)) ≠ 0) :
+    HasDerivAt (fun u => Gen.signedAngle (reV3 (ax u)) (reV3 (p u)) (reV3 (c u)))
+      (Gen.signedAngle (ax t) (p t) (c t)).du t :=
+  gen_signedAngle_deriv hax hp hc h
+
+/-- **`Gen.fromTo`**, strictly off its switching surface on the generic side (`1 + v1·v2 > 1e-6`):
+no other side condition.  (P) holds for every input. -/
+theorem gen_fromTo_tangent_is_derivative (v1 v2 : ℝ → V3 (Dual ℝ)) (t : ℝ)
+    (h1 : SoundV3 v1 t) (h2 : SoundV3 v2 t)
+    (hfar : (1e-6 : ℝ) < 1 + V3.dot (reV3 (v1 t)) (reV3 (v2 t))) :
+    (∀ a b : V3 (Dual ℝ), reQ4 (Gen.fromTo a b) = Gen.fromTo (reV3 a) (reV3 b))
+    ∧ DerivQ4 (fun u => Gen.fromTo (reV3 (v1 u)) (reV3 (v2 u))) (duQ4 (Gen.fromTo (v1 t) (v2 t))) t :=
+  ⟨reQ4_gen_fromTo, gen_fromTo_deriv h1 h2 hfar⟩
+
+/-- non-vacuity: the guards are satisfiable (a unit quaternion / unit vector; orthogonal unit
+vectors for `from_to`; `p = c` for `signed_angle`) -/
+example : allClose0 [(1 : ℝ), 0, 0, 0] = false ∧ allClose0 [(0 : ℝ), 0, 1] = false := by
+  constructor <;> (rw [Bool.eq_false_iff]; intro hc; rw [allClose0_iff] at hc
+                   have := hc 1 (by simp); norm_num at this)
+example : (1e-6 : ℝ) < 1 + V3.dot (⟨1, 0, 0⟩ : V3 ℝ) ⟨0, 1, 0⟩ := by norm_num [V3.dot]
+example : 0 < V3.dot (⟨1, 0, 0⟩ : V3 ℝ) ⟨1, 0, 0⟩ := by norm_num [V3.dot]
+
+end Brax.C03
+
+namespace Brax.C03
+open Brax
+
+/-- **the slide guard `|cos(q/2)| > 1e-8` of `ADOK` is necessary**: there is a slide coordinate `q₀`
+with `cos(q₀/2) = 1e-8` at which the joint rotation that `jcalc` computes for a slide dof (rotation
+axis `0`) is discontinuous in `q` (it jumps from `1` to `1e-2`), so no derivative exists there -/
+theorem slide_guard_is_needed (d : DofP ℝ) (h : d.motion.ang = ⟨0, 0, 0⟩) (qd : ℝ) :
+    ∃ q0 : ℝ, Real.cos (q0 / 2) = 1e-8
+      ∧ ¬ ContinuousAt (fun q => (Kin.jcalcDof d q qd).1.rot.w) q0 := by
+  obtain ⟨q0, h0, hc⟩ := slide_guard_needed
+  refine ⟨q0, h0, ?_⟩
+  have e : (fun q => (Kin.jcalcDof d q qd).1.rot.w) = slideW := by
+    funext q; exact jcalcDof_slide_rot_w d h q qd
+  rw [e]; exact hc
+
+end Brax.C03
